@@ -113,6 +113,7 @@ class RefAsm:
         self.eq_limit = None
         self.depth = 0
         self.extra_calls = []
+        self.reloc_rom_active = False
         self.stats = {"cross_scope_refs": 0, "scopes": 0, "inferred": 0, "moves": 0, "emits": 0}
 
     # ---- scopes / lookup -------------------------------------------------------------
@@ -247,16 +248,20 @@ class RefAsm:
                 raise Fail("*= to an unmapped bank") from u
             self.stats["moves"] += 1
             if r.ram:
-                # storage position of what follows is not specified by C03: block offset unknown (None)
+                # a RAM address has no ROM offset to move to: the output stays where it is (a new block starts at the
+                # current storage offset).  Only after an `@=` to a ROM address is the position unspecified (the
+                # implementation tracks a single offset for storage and for branch arithmetic there).
                 self.run = t
-                self.off = None
-                self.blocks.append([None, bytearray()])
+                if self.off is None or self.reloc_rom_active:
+                    self.off = None
+                self.blocks.append([self.off, bytearray()])
                 self.stats["ram_org"] = self.stats.get("ram_org", 0) + 1
                 return
             if not self.bus.in_window(t):
                 raise Unspec("*= below the bank window")
             self.run = t
             self.off = self.bus.phys(t)
+            self.reloc_rom_active = False
             self.blocks.append([self.off, bytearray()])
         elif k == "reloc":
             t = self.pos_value(st[1], scope)
@@ -269,6 +274,8 @@ class RefAsm:
             self.need_pos()
             self.stats["moves"] += 1
             self.run = t
+            if not r.ram:
+                self.reloc_rom_active = True
         elif k == "label":
             self.define(scope, st[1], self.cur_run() if self.run is not None else self._no_pos_label(), label=True)
         elif k == "eq":
